@@ -1101,7 +1101,7 @@ func vC18ServeProbes(r *rand.Rand, out *vC18Out, b *BlockList, cfg *config.Confi
 	}
 	probes := vC18Probes(r, names, count)
 	for _, q := range probes {
-		if _, ok := dns.IsDomainName(q); !ok || strings.Contains(q, "..") {
+		if _, ok := dns.IsDomainName(q); !ok || strings.Contains(q, "..") || !vC18ASCII(q) {
 			continue
 		}
 		qt := vC18Qtypes[r.Intn(len(vC18Qtypes))]
@@ -1245,6 +1245,34 @@ func vC18CaseSpelling(t *testing.T, r *rand.Rand, out *vC18Out) {
 		desc, true, "", "")
 }
 
+func vC18ASCII(s string) bool {
+	for i := 0; i < len(s); i++ {
+		if s[i] >= 0x80 {
+			return false
+		}
+	}
+	return true
+}
+
+// every rune unicode.IsSpace accepts (what strings.Fields / TrimSpace on the reload side split
+// and trim at), and runes next to them that are no white space
+var vC18Spaces = []string{"\t", "\n", "\v", "\f", "\r", " ", "\u0085", "\u00a0", "\u1680",
+	"\u2000", "\u2001", "\u2002", "\u2003", "\u2004", "\u2005", "\u2006", "\u2007", "\u2008", "\u2009", "\u200a",
+	"\u2028", "\u2029", "\u202f", "\u205f", "\u3000"}
+var vC18NotSpaces = []string{"\u0084", "\u0086", "\u009f", "\u00a1", "\u167f", "\u1681", "\u1fff", "\u200b", "\u2027", "\u202a",
+	"\u202e", "\u2030", "\u205e", "\u2060", "\u2fff", "\u3001", "\ufeff"}
+
+// a key with the rune x at the front, inside or at the end of its first label (pos 0, 1, 2)
+func vC18WithRune(x string, pos int, base string) string {
+	switch pos {
+	case 0:
+		return x + "lead." + base
+	case 1:
+		return "mid" + x + "dle." + base
+	}
+	return "trail" + x + "." + base
+}
+
 // the other form of the same domain: plain <-> wildcard of one suffix ("" when there is none)
 func vC18Twin(e string) string {
 	switch {
@@ -1303,6 +1331,18 @@ func vC18KeyPool(r *rand.Rand, prefix string, special bool) []string {
 				pool = append(pool, "one two three."+base)
 			}
 		}
+		// one key with white space out of the whole class on every special pool, and as often
+		// as not one with a rune next to the class (accepted, must come back unchanged)
+		{
+			k := vC18WithRune(vC18Spaces[r.Intn(len(vC18Spaces))], r.Intn(3), vC18Name(r))
+			if r.Intn(4) == 0 {
+				k = "*." + k
+			}
+			pool = append(pool, k)
+			if r.Intn(2) == 0 {
+				pool = append(pool, vC18WithRune(vC18NotSpaces[r.Intn(len(vC18NotSpaces))], r.Intn(3), vC18Name(r)))
+			}
+		}
 	}
 	return pool
 }
@@ -1342,6 +1382,62 @@ func vC18RandOp(r *rand.Rand, pool []string) vC18Op {
 		}
 		return vC18Op{"removebatch", ks}
 	}
+}
+
+// "cover, then uncover": a broad entry (plain or wildcard), a narrower one at or below it (added
+// while the broad one covers it — or before it), then the broad one removed. What the calls
+// acknowledged and what is matched afterwards must still be the same list.
+func vC18CoverPattern(r *rand.Rand, pool []string) (ops []vC18Op, around []string) {
+	d := strings.TrimPrefix(pool[r.Intn(len(pool))], "*.")
+	if d == "" || d == "." || d == "*" || strings.Contains(d, "..") || strings.HasPrefix(d, ".") || strings.ContainsAny(d, " \t\n\r\v\f#") {
+		d = vC18Name(r)
+	}
+	if !strings.HasSuffix(d, ".") {
+		d += "."
+	}
+	broad := d
+	if r.Intn(2) == 0 {
+		broad = "*." + d
+	}
+	l := vC18Labels[r.Intn(len(vC18Labels))]
+	var narrow string
+	switch r.Intn(6) {
+	case 0, 1:
+		narrow = l + "." + d
+	case 2:
+		narrow = "*." + l + "." + d
+	case 3:
+		narrow = "a." + l + "." + d
+	case 4:
+		narrow = "*." + d // the wildcard form of the same suffix
+	default:
+		narrow = d // the apex: a duplicate of a plain entry, not covered by the wildcard form
+	}
+	one := func(kind, k string) vC18Op {
+		k = vC18Spell(r, k)
+		if r.Intn(3) == 0 {
+			ks := []string{k}
+			if r.Intn(2) == 0 {
+				ks = append(ks, vC18Spell(r, pool[r.Intn(len(pool))]))
+			}
+			return vC18Op{kind + "batch", ks}
+		}
+		return vC18Op{kind, []string{k}}
+	}
+	first, second := one("set", broad), one("set", narrow)
+	if r.Intn(4) == 0 {
+		first, second = second, first
+	}
+	ops = append(ops, first)
+	if r.Intn(3) == 0 {
+		ops = append(ops, vC18RandOp(r, pool))
+	}
+	ops = append(ops, second)
+	if r.Intn(4) == 0 {
+		ops = append(ops, vC18RandOp(r, pool))
+	}
+	ops = append(ops, one("remove", broad))
+	return ops, []string{narrow, broad, "www." + strings.TrimPrefix(narrow, "*.")}
 }
 
 func vC18Whitelist(r *rand.Rand, pool []string) []string {
@@ -1390,10 +1486,22 @@ func vC18CaseHistory(t *testing.T, r *rand.Rand, out *vC18Out, special bool) {
 	var parts []string
 	var descOps []any
 	anyOK := false
-	for i := 0; i < nops; i++ {
-		op := vC18RandOp(r, pool)
-		if special && i == 0 {
+	var planned []vC18Op
+	var around []string
+	for i := 0; i < nops || len(planned) > 0; i++ {
+		var op vC18Op
+		switch {
+		case special && i == 0:
 			op = vC18Op{"setbatch", pool[len(pool)-2:]}
+		case len(planned) > 0:
+			op, planned = planned[0], planned[1:]
+		case !special && i < nops-1 && r.Intn(5) == 0:
+			var a []string
+			planned, a = vC18CoverPattern(r, pool)
+			around = append(around, a...)
+			op, planned = planned[0], planned[1:]
+		default:
+			op = vC18RandOp(r, pool)
 		}
 		ret := op.apply(b)
 		if ret > 0 {
@@ -1403,13 +1511,13 @@ func vC18CaseHistory(t *testing.T, r *rand.Rand, out *vC18Out, special bool) {
 		descOps = append(descOps, []any{op.Kind, op.Keys, ret})
 		if ret > 0 && (op.Kind == "remove" || op.Kind == "removebatch") && r.Intn(2) == 0 {
 			// right after a removal
-			vC18ServeProbes(r, out, b, cfg, append(append([]string{}, pool...), cfg.Whitelist...), 1+r.Intn(2), "serve-after-remove")
+			vC18ServeProbes(r, out, b, cfg, append(append(append([]string{}, pool...), cfg.Whitelist...), around...), 1+r.Intn(2), "serve-after-remove")
 		}
 	}
 	m1, wild1, _ := vC18Dump(b)
 	present, file := vC18ReadLocal(dir)
 	// queries against the list this history left behind (removals included)
-	vC18ServeProbes(r, out, b, cfg, append(append([]string{}, pool...), cfg.Whitelist...), 1+r.Intn(3), "serve-after-history")
+	vC18ServeProbes(r, out, b, cfg, append(append(append([]string{}, pool...), cfg.Whitelist...), around...), 1+r.Intn(3), "serve-after-history")
 	hk := "history"
 	if special {
 		hk = "history-special"
@@ -1458,6 +1566,47 @@ func vC18CaseTwinBatch(t *testing.T, r *rand.Rand, out *vC18Out, nops int) {
 		map[string]any{"m0": m0, "wild0": wild0, "w": w, "ops": descOps, "m1": m1, "wild1": wild1, "file_present": present, "file": file}, true, "", "")
 	if present {
 		vC18EmitReload(r, out, "reload-twin-batch", dir, cfg.Whitelist, m1, wild1, "")
+	}
+}
+
+// the fixed white-space sweep: every rune of the class the reload side splits at, at the front,
+// inside and at the end of a label, offered to Set one by one (and the runes next to the class,
+// which are no white space and must come back from the file as they went in)
+func vC18CaseWhitespace(t *testing.T, r *rand.Rand, out *vC18Out, pos int, spaces bool) {
+	dir := vC18Dir(t)
+	cfg := vC18Cfg(r, dir)
+	b := vC18NewQuiet(cfg)
+	m0, wild0, w := vC18Dump(b)
+	ops := []vC18Op{{"set", []string{"keep.ws-sweep.test."}}}
+	runes := vC18Spaces
+	if !spaces {
+		runes = vC18NotSpaces
+	}
+	for i, x := range runes {
+		k := vC18WithRune(x, pos, "ws-sweep.test.")
+		if i%5 == 4 {
+			k = "*." + k
+		}
+		if i%7 == 6 {
+			ops = append(ops, vC18Op{"setbatch", []string{k}})
+		} else {
+			ops = append(ops, vC18Op{"set", []string{k}})
+		}
+	}
+	var parts []string
+	var descOps []any
+	for _, op := range ops {
+		ret := op.apply(b)
+		parts = append(parts, fmt.Sprintf("(%s, %d%%N)", op.coq(), ret))
+		descOps = append(descOps, []any{op.Kind, op.Keys, ret})
+	}
+	m1, wild1, _ := vC18Dump(b)
+	present, file := vC18ReadLocal(dir)
+	out.emit("history-whitespace", fmt.Sprintf("CaseHistory %s %s %s [%s] %s %s %s", vC18List(m0), vC18List(wild0), vC18List(w), strings.Join(parts, "; "),
+		vC18List(m1), vC18List(wild1), vC18OptStr(present, file)),
+		map[string]any{"m0": m0, "wild0": wild0, "w": w, "ops": descOps, "m1": m1, "wild1": wild1, "file_present": present, "file": file}, true, "", "")
+	if present {
+		vC18EmitReload(r, out, "reload-whitespace", dir, cfg.Whitelist, m1, wild1, "")
 	}
 }
 
@@ -2969,6 +3118,10 @@ func TestVerifC18(t *testing.T) {
 	// together with its own wildcard form (set, then removed again)
 	for i, fr := 0, rand.New(rand.NewSource(1809)); i < 4; i++ {
 		vC18CaseTwinBatch(t, fr, out, 2+i) // stops after the batch, after its removal, ...
+	}
+	// and the white-space sweep: the whole class at the three positions, and its neighbours once
+	for i, fr := 0, rand.New(rand.NewSource(1812)); i < 4; i++ {
+		vC18CaseWhitespace(t, fr, out, i%3, i < 3)
 	}
 	// random histories with refreshes that bring remote lists (side by side, about two seconds)
 	nrh := 8
